@@ -1,6 +1,7 @@
 """Property -> units, level, assumptions.  Single source of truth for what is claimed; bin/gen_manifest.py writes
 MANIFEST.json from it."""
 from . import c12 as _c12
+from . import c01_kani as _c01k
 
 TECH = ("contract-based deductive verification: Verus discharges contracts woven into the real functions extracted from "
         "/repo on every run (units: %s); vacuity canary copies; failures mapped to the property by contract labels")
@@ -19,7 +20,8 @@ COMMON_TRUST = ("Assumed: the shims' contracts for std / async-std / walkdir / p
 PROPS = {
     "C01": _p(["generate", "find"], COMMON_TRUST + " A lock value, when present, is >= 1 (written by Breadlog).",
               "proof for all entry lists / file sets / counter values: reduce, Insert::map (consecutive checked IDs), the drivers' alloc_inv "
-              "(disjoint ranges above every existing ID) and generate_code; Kani only finds counterexamples for failed obligations"),
+              "(disjoint ranges above every existing ID) and generate_code; Kani finds counterexamples for failed obligations and, in the thorough tier, "
+              "cross-checks the reduce functions on the unrewritten crate (bounded)", extra=[("kani_cross_check", _c01k.run)]),
     "C02": _p(["generate", "context"], COMMON_TRUST + " TWO KNOWN FINDINGS (known_findings.json, reproduced by findings/*.sh): the lock is written after the "
               "source files, so (a) a kill between a rename and the lock write [C02.writeahead at the rename call site] and (b) a failed lock write, which "
               "is only logged [C02.lockfail of generate_code], leave a stale lock; every other obligation of C02 is discharged.",
